@@ -273,7 +273,29 @@ let run_table_op (t : table ref) (tp : tops) (text : string) : string =
         if Stdlib.List.length out <> Stdlib.List.length sel || not (contiguous [] None out) then -2
         else Stdlib.List.fold_left (fun d c -> fold_digest d (ofnat c)) 0 (GroupModel.group_runs sel)
       end in
-    Printf.sprintf "s %d %d %d %d g %d" n (keys_digest ks) (ofnat lb) (ofnat ub) g
+    (* DataSelection editing: the same script as the harness, on the positions of the selected rows, by SelEditModel *)
+    let module E = SelEditModel in
+    let pos = select !t [] p in                      (* table order *)
+    let ids = Stdlib.List.map (fun q -> Stdlib.List.nth (Stdlib.List.nth !t.rows (ofnat q)) 0) pos in
+    let id_of q = (try Stdlib.List.assoc (ofnat q) (Stdlib.List.combine (Stdlib.List.map ofnat pos) ids) with Not_found -> z_of_int 0) in
+    let odd q = (zi (id_of q)) land 1 <> 0 in
+    let lbi = ofnat lb and ubi = ofnat ub in
+    let n0 = Stdlib.List.length pos in
+    let ed = E.sel_reverse pos in
+    let ed = if n0 = 0 then ed else begin
+      let nth l i = Stdlib.List.nth l i in
+      let len l = Stdlib.List.length l in
+      let ed = E.sel_add (nth pos 0) ed in
+      let ed = E.sel_insert (nat 1) (nth pos (n0 - 1)) ed in
+      let at = lbi mod (len ed + 1) in
+      let ed = E.sel_insert_range (nat at) pos ed in
+      let ri = ubi mod (len ed) in let rc = min 2 (len ed - ri) in
+      let ed = E.sel_remove (nat ri) (nat rc) ed in
+      let ed = E.sel_remove_pred odd ed in
+      let ed = if len ed > 0 then E.sel_set (nat 0) (nth pos (n0 / 2)) ed else ed in
+      let ed = E.sel_add_range pos ed in
+      if lbi land 1 = 1 then E.sel_assign pos ed else ed end in
+    Printf.sprintf "s %d %d %d %d g %d e %d %d" n (keys_digest ks) (ofnat lb) (ofnat ub) g (Stdlib.List.length ed) (pos_digest ed)
   | ["D"] -> Stdlib.String.concat " " ("d" :: Stdlib.List.map (fun r -> Stdlib.String.concat "." (Stdlib.List.map string_of_z r)) !t.rows)
   | _ -> "?"
 
